@@ -8,7 +8,7 @@ from pyvc.state import State
 from pyvc.ctx import unit
 from specs.common import *
 from specs.dsl import *
-from specs import ghost, harness
+from specs import ghost, harness, native
 from specs.ghost import Machine, emitted, cmd_is
 from specs import transform_units as TU
 
@@ -34,6 +34,7 @@ def _tx_cm(name, with_src, props=("C13",)):
                "        raise ValueError('body failed')\n")
         ctx.under_contract(f"GCodeCore.{name}"); ctx.under_contract("CoordinateTransformer._copy_state"); ctx.under_contract("CoordinateTransformer._revert_state")
         exits = x.run_snippet(src, st, qual=f"<client of {name}>", mod="gscrib.gcode_core")
+        ctx.replayer = native.cm_replayer(ctx.w, name, with_src, src, tr, h0, info, flag)
         ctx.res.inlined = sorted(set(ctx.res.inlined) | x.inlined)
         hint = TU.HINTS[-8:] + [TU.mat_eq(info["v"]["M"], TU.I4), TU.mat_eq(info["v"]["R"], TU.I4)]
         ctx.default_hint = hint
